@@ -131,7 +131,7 @@ fn soup_check(kit: &'static Kit, toks: &[&'static str], seq: &[u8], sink: &Sink)
 
 /// Content lines that are hostile to the validators rather than to the parsers.
 const RULE_LINES: &[&str] = &[
-    "nan", "NaN", "inf", "-inf", "1e999", "-0", "0x1F", "\u{661}\u{662}", "1_0", "", "   ", "\u{a0}", ".", "-", "+5", "9999999999999999999999999999999999999999", "é", "a\u{301}", "1 2", "\t3",
+    "nan", "NaN", "inf", "-inf", "1e999", "-0", "0x1F", "\u{661}\u{662}", "1_0", "", "   ", "\u{a0}", ".", "-", "+5", "9999999999999999999999999999999999999999", "é", "a\u{301}", "1 2", "\t3", "末尾中",
 ];
 const RULE_TAGS: &[&str] = &[
     "keep-sorted keep-sorted-format=\"numeric\"",
@@ -141,23 +141,40 @@ const RULE_TAGS: &[&str] = &[
     "keep-unique",
     "line-pattern=\"^\\p{L}*$\"",
     "line-count=\">=0\"",
+    "check-lua=\"{lua}\"",
 ];
+
+/// A healthy script for the rule-content soups.
+fn soup_script() -> &'static str {
+    static S: std::sync::OnceLock<(crate::cli::Scratch, String)> = std::sync::OnceLock::new();
+    &S.get_or_init(|| {
+        let s = crate::cli::Scratch::new("c04lua");
+        s.write("ok.lua", "function validate(ctx, content)\n  return nil\nend\n");
+        let p = s.path("ok.lua").display().to_string();
+        (s, p)
+    })
+    .1
+}
 
 fn rule_soup_check(seq: &[u8], sink: &Sink) {
     let lines: Vec<&str> = seq.iter().map(|&i| RULE_LINES[i as usize]).collect();
     for (ti, tag) in RULE_TAGS.iter().enumerate() {
-        let mut text = format!("# <block {tag}>\n");
-        for l in &lines {
-            text.push_str(l);
-            text.push('\n');
+        // A rule-less block comes first, the block under test second; with and without a byte
+        // order mark at the start of the file.
+        for bom in ["", "\u{feff}"] {
+            let mut text = format!("{bom}# <block name=\"plain\">\nplain = 0\n# </block>\n# <block {}>\n", tag.replace("{lua}", soup_script()));
+            for l in &lines {
+                text.push_str(l);
+                text.push('\n');
+            }
+            text.push_str("# </block>\n");
+            let input = json!({"file": "x.py", "text": text, "rule": ti});
+            core::slot_write(&json!({"file": "x.py", "text": text}).to_string());
+            sink.exec();
+            let scan = librun::run(&Input { files: vec![("x.py".to_string(), text.clone())], ..Default::default() });
+            judge(&scan, "rule-scan", "rule-content", &text, &input, sink);
+            core::slot_clear();
         }
-        text.push_str("# </block>\n");
-        let input = json!({"file": "x.py", "text": text, "rule": ti});
-        core::slot_write(&json!({"file": "x.py", "text": text}).to_string());
-        sink.exec();
-        let scan = librun::run(&Input { files: vec![("x.py".to_string(), text.clone())], ..Default::default() });
-        judge(&scan, "rule-scan", "rule-content", &text, &input, sink);
-        core::slot_clear();
     }
     if seq.len() >= 2 {
         sink.nontrivial();
@@ -275,8 +292,97 @@ fn hostile_check(pair: &(Vec<u8>, Vec<u8>, bool, u8), sink: &Sink) {
     }
 }
 
+/// A deterministic pseudo-random line of `len` bytes over identifier and punctuation characters.
+fn long_line(len: usize, seed: u64) -> String {
+    const CHARS: &[u8] = b"abcdefghijklmnopqrstuvwxyz(){};=,. ";
+    let mut x = seed.wrapping_mul(6364136223846793005).wrapping_add(1442695040888963407);
+    (0..len)
+        .map(|_| {
+            x = x.wrapping_mul(6364136223846793005).wrapping_add(1442695040888963407);
+            CHARS[((x >> 33) % CHARS.len() as u64) as usize] as char
+        })
+        .collect()
+}
+
+/// One very long line modified by the diff (a regenerated minified or generated file): (length,
+/// kind, file). Kinds: 0 rewritten entirely, 1 one character changed in the middle, 2 shortened
+/// to a few characters, 3 grown from a few characters. Files: a supported one holding a block
+/// around the line, and a name blockwatch has no grammar for (its diff is read all the same).
+fn long_line_check(case: &(usize, u8, u8), sink: &Sink) {
+    let (len, kind, file_kind) = *case;
+    let a = long_line(len, 1);
+    let (old_line, new_line) = match kind {
+        0 => (a.clone(), long_line(len, 2)),
+        1 => {
+            let mut b = a.clone().into_bytes();
+            b[len / 2] = if b[len / 2] == b'q' { b'z' } else { b'q' };
+            (a.clone(), String::from_utf8(b).expect("ascii"))
+        }
+        2 => (a.clone(), "short;".to_string()),
+        _ => ("short;".to_string(), a.clone()),
+    };
+    let file = if file_kind == 0 { "x.js" } else { "bundle.min.data" };
+    let new_text = format!("// <block name=\"b\" keep-sorted>\n{new_line}\n// </block>\n");
+    let diff = format!("diff --git a/{file} b/{file}\nindex 1111111..2222222 100644\n--- a/{file}\n+++ b/{file}\n@@ -1,3 +1,3 @@\n // <block name=\"b\" keep-sorted>\n-{old_line}\n+{new_line}\n // </block>\n");
+    let input = json!({"long_line": [len, kind, file_kind]});
+    core::slot_write(&input.to_string());
+    sink.exec();
+    let outcome = librun::run(&Input { files: vec![(file.to_string(), new_text)], diff: Some(diff), ..Default::default() });
+    judge(&outcome, "long-line-diff", "long-line", &format!("{file}: one line of {len} bytes, kind {kind}"), &input, sink);
+    core::slot_clear();
+    sink.nontrivial();
+}
+
+/// Deeply nested, well-formed source between two tag comments: (kit index, construct, depth).
+/// Through the real binary, one process per run: a crash inside a third-party grammar cannot be
+/// caught in-process, and the exploration must go on after it.
+fn deep_nesting_check(cfg: &Cfg, case: &(usize, u8, usize), sink: &Sink) {
+    let (ki, construct, depth) = *case;
+    let kit = &KITS[ki];
+    let (open, close, what) = match (kit.grammar, construct) {
+        ("html" | "xml", _) => ("<a>", "</a>", "elements"),
+        ("markdown", 0) => ("> ", "", "block-quotes"),
+        (_, 0) => ("(", ")", "parentheses"),
+        (_, 1) => ("[", "]", "brackets"),
+        _ => ("{", "}", "braces"),
+    };
+    let form = kit.forms[0];
+    let comment = |inner: &str| match form.kind {
+        crate::props::langkit::FormKind::Md => format!("[//]: # {}{inner}{}", form.open, form.close),
+        _ if form.close.is_empty() => format!("{} {inner}", form.open),
+        _ => format!("{} {inner} {}", form.open, form.close),
+    };
+    let sep = if kit.blank_between { "\n\n" } else { "\n" };
+    let text = format!("{}{}{sep}{}x{}{sep}{}{sep}{}", kit.prologue, comment("<block name=\"deep\">"), open.repeat(depth), close.repeat(depth), comment("</block>"), kit.epilogue);
+    let input = json!({"deep_nesting": [ki, construct, depth]});
+    let file = kit.files[0];
+    thread_local! { static REPO: crate::cli::Scratch = crate::cli::Scratch::repo("c04deep"); }
+    REPO.with(|repo| {
+        repo.clear();
+        repo.write(file, &text);
+        let diff = cli::new_file_diff(file, &text);
+        let depth_class = if depth < 1_000 { "hundreds" } else { "tens-of-thousands" };
+        for (mode, args, stdin) in [("scan", vec![], None), ("list", vec!["list"], None), ("diff", vec![], Some(diff.as_str()))] {
+            sink.exec();
+            let run = cli::blockwatch(&cfg.bin, &repo.dir, &args, stdin, &[], core::HANG_LIMIT_S as u32);
+            let describe = format!("{file}: {depth} nested {what} between two tag comments, {mode} mode: {}", run.summary().to_string().chars().take(400).collect::<String>());
+            if run.timed_out {
+                sink.outcome(format!("deep:{}:{what}:hang", kit.grammar));
+                sink.fail(format!("C04:hang:deep-nesting:{}:{what}:{depth_class}", kit.grammar), describe, input.clone());
+                break; // the other modes would only wait as long
+            } else if run.panicked() || !matches!(run.code, Some(0) | Some(1)) {
+                sink.outcome(format!("deep:{}:{what}:crash", kit.grammar));
+                sink.fail(format!("C04:crash:deep-nesting:{}:{what}:{depth_class}", kit.grammar), describe, input.clone());
+            } else {
+                sink.outcome(format!("deep:{}:{what}:{:?}", kit.grammar, run.code));
+            }
+        }
+    });
+    sink.nontrivial();
+}
+
 pub fn run(cfg: &Cfg, sink: &Arc<Sink>) -> Report {
-    let mut report = Report::new("(1) token soups: every sequence of ≤3 (thorough ≤4) tokens, and one token longer over the core tokens (delimiters, tag fragments, newline, quote), over the grammar's comment delimiters, tag fragments, a rule-laden start tag, quotes, newline, NBSP, combining mark and emoji, per grammar, run in scan mode (parse + all validators), list mode and diff mode (all-lines-added diff); (2) every single-token insertion, deletion and replacement at every token boundary of a seed file per registered suffix (thorough: every pair of insertions); (3) real git diffs between every pair of ≤2-line files over lines that look like diff syntax; oracle: the run returns a report or an error — no panic, abort or hang (10 s watchdog per case, in the supervisor); non-trivial = soups of ≥2 tokens, every mutation, every non-empty diff");
+    let mut report = Report::new("(1) token soups: every sequence of ≤3 (thorough ≤4) tokens, and one token longer over the core tokens (delimiters, tag fragments, newline, quote), over the grammar's comment delimiters, tag fragments, a rule-laden start tag, quotes, newline, NBSP, combining mark and emoji, per grammar, run in scan mode (parse + all validators), list mode and diff mode (all-lines-added diff); (2) every single-token insertion, deletion and replacement at every token boundary of a seed file per registered suffix (thorough: every pair of insertions); (3) real git diffs between every pair of ≤2-line files over lines that look like diff syntax; (4) validator-hostile content lines under 7 rule configurations; (5) diffs that modify one very long line; (6) deeply nested well-formed source per grammar; oracle: the run returns a report or an error — no panic, abort or hang (10 s watchdog per case, in the supervisor); non-trivial = soups of ≥2 tokens, every mutation, every non-empty diff");
     report.assume("aborts and hangs are detected by the supervisor process (main.rs) which replays the cases the dead child was working on");
     let soup_len = cfg.tier.pick(3, 4);
     for kit in KITS {
@@ -351,6 +457,54 @@ pub fn run(cfg: &Cfg, sink: &Arc<Sink>) -> Report {
         cfg.threads,
         true,
     ));
+    // Deep nesting.
+    let mut cases = Vec::new();
+    for (ki, kit) in KITS.iter().enumerate() {
+        for construct in 0..3u8 {
+            // HTML and XML nest elements whatever the construct.
+            if matches!(kit.grammar, "html" | "xml") && construct > 0 {
+                continue;
+            }
+            for depth in cfg.tier.pick(vec![300usize, 60_000], vec![300, 60_000, 300_000]) {
+                // tree-sitter-html/-xml need more than the time limit at such depths (a known
+                // finding): those runs wait for the limit, so they belong to the thorough tier.
+                if matches!(kit.grammar, "html" | "xml") && depth > 300 && cfg.tier == Tier::Quick {
+                    continue;
+                }
+                if matches!(kit.grammar, "html" | "xml") && depth > 60_000 {
+                    continue;
+                }
+                cases.push((ki, construct, depth));
+            }
+        }
+    }
+    let n = cases.len();
+    report.phase(engine::explore(
+        "deeply nested source",
+        &format!("{n} files: per grammar 300 and 60 000{} nested parentheses / brackets / braces (elements in HTML and XML, block quotes in Markdown) between two tag comments × {{scan, list, diff}} through the real binary, one process per run", cfg.tier.pick("", " and 300 000")),
+        Grid { cases, check: { let cfg = cfg.clone(); move |c: &(usize, u8, usize), s: &Sink| deep_nesting_check(&cfg, c, s) } },
+        sink,
+        cfg.threads,
+        false,
+    ));
+    // Very long modified lines.
+    let mut cases = Vec::new();
+    for len in cfg.tier.pick(vec![3_000usize, 60_000], vec![3_000, 60_000, 400_000]) {
+        for kind in 0..4u8 {
+            for file_kind in 0..2u8 {
+                cases.push((len, kind, file_kind));
+            }
+        }
+    }
+    let n = cases.len();
+    report.phase(engine::explore(
+        "very long modified lines",
+        &format!("{n} diffs modifying one line of 3 000 / 60 000{} bytes (rewritten, one character changed, shortened, grown) in a supported file and in a file without grammar", cfg.tier.pick("", " / 400 000")),
+        Grid { cases, check: |c: &(usize, u8, u8), s: &Sink| long_line_check(c, s) },
+        sink,
+        cfg.threads,
+        false,
+    ));
     // Hostile real git diffs.
     let max = cfg.tier.pick(2usize, 3usize);
     let mut seqs: Vec<Vec<u8>> = vec![vec![]];
@@ -393,6 +547,16 @@ pub fn run(cfg: &Cfg, sink: &Arc<Sink>) -> Report {
 }
 
 pub fn replay(_cfg: &Cfg, input: &Value, sink: &Arc<Sink>) {
+    if let Some(c) = input.get("deep_nesting").and_then(Value::as_array) {
+        let n = |i: usize| c.get(i).and_then(Value::as_u64).unwrap_or(0);
+        deep_nesting_check(_cfg, &(n(0) as usize, n(1) as u8, n(2) as usize), sink);
+        return;
+    }
+    if let Some(c) = input.get("long_line").and_then(Value::as_array) {
+        let n = |i: usize| c.get(i).and_then(Value::as_u64).unwrap_or(0);
+        long_line_check(&(n(0) as usize, n(1) as u8, n(2) as u8), sink);
+        return;
+    }
     if let Some(diff) = input.get("diff").and_then(Value::as_str) {
         let new_text = input["new"].as_str().unwrap_or("").to_string();
         sink.exec();
